@@ -226,6 +226,29 @@ pub fn check_case(sb: &Sandbox, seed: u64, idx: usize, case: &Case, nsched: usiz
     r.procs += 1;
     let whole_ok = wsum.class == "compiled";
     let whole_panic = wsum.class == "panicked";
+    // the same whole-program compilation, invoked as `goml run main.gom` from inside the project
+    // directory: how the entry file is spelled must not change what is accepted or emitted
+    if idx % 3 == 0 && !whole_panic {
+        let bare = ops::run_main_bare(sb, &spec);
+        r.procs += 1;
+        *r.probes.entry("whole_program_also_invoked_with_bare_entry_path").or_insert(0) += 1;
+        if bare.class != wsum.class {
+            r.violations.push(Violation {
+                property: PROP.into(),
+                class: "acceptance-disagreement".to_string(),
+                key: json!({"class": "acceptance-disagreement", "cause": "entry-path-spelling"}),
+                what: format!(
+                    "C14: project {}: whole-program compilation {} when invoked as `goml run /abs/path/main.gom` but {} when invoked as `goml run main.gom` from the project directory ({:?} {})",
+                    case.name,
+                    wsum.class,
+                    bare.class,
+                    bare.diagnostics.first(),
+                    bare.message.chars().take(200).collect::<String>()
+                ),
+                replay: json!({"kind": "c14", "case": case.name, "class": "acceptance-disagreement", "schedule_seed": 0, "index": idx, "files": files_json(&case.files), "predicted": case.predicted}),
+            });
+        }
+    }
     let pd = sha(serde_json::to_string(&files_json(&case.files)).unwrap().as_bytes());
     let mut whole_behaviour: Option<(String, String, usize)> = None;
     let mut refprog: Option<Arc<refi::RefProg>> = None;
